@@ -38,16 +38,17 @@ BOND_SECTIONS = {"bonds", "constraints", "pairs"}
 
 
 def run(ctx: Ctx):
-    r15_1(ctx)
-    r15_2(ctx)
-    r15_3(ctx)
-    r15_4(ctx)
-    r15_5(ctx)
-    c16.r16_1(ctx, rule="R15.6")
-    c16.r16_2b(ctx, rule="R15.6")       # every line of a section is filed under that section (the bond graph reads them from there)
+    ctx.attempt("R15.1", lambda: r15_1(ctx))
+    ctx.attempt("R15.2", lambda: r15_2(ctx))
+    ctx.attempt("R15.3", lambda: r15_3(ctx))
+    ctx.attempt("R15.4", lambda: r15_4(ctx))
+    ctx.attempt("R15.5", lambda: r15_5(ctx))
+    ctx.attempt("R15.6", lambda: c16.r16_1(ctx, rule="R15.6"))
+    ctx.attempt("R15.6", lambda: c16.r16_2b(ctx, rule="R15.6"))       # every line of a section is filed under that section (the bond graph reads them from there)
     from ..util import persistent_state
-    persistent_state(ctx, "R15.7", [ctx.func(q) for q in ("ItpFile.__init__", "_itp_top_atoms", "_parse_itp_bonds", "MoleculeTop.__init__")],
-                     "reading a topology")
+    ctx.attempt("R15.7", lambda: persistent_state(ctx, "R15.7", [ctx.func(q) for q in ("ItpFile.__init__", "_itp_top_atoms", "_parse_itp_bonds", "MoleculeTop.__init__")],
+                     "reading a topology"))
+
 
 
 def r15_1(ctx: Ctx):
